@@ -119,6 +119,7 @@ def run(ck):
     ck.ob("T", "build_proof:requires-dirty", bool(pg) and must_between(bp, None, pg, returns(bp))[0],
           "FriProver::build_proof refuses to run before layers were built", loc=bp.loc())
     remainder_exemption(ck, prog)
+    layer_count_rule(ck, prog)
     agreement(ck, prog)
     ck.control("FriProver::set_remainder does not clear the layers", "layers" not in clears(prog, sr))
 
@@ -206,6 +207,45 @@ def agreement(ck, prog):
             ck.ob("A", f"domain-shrinks-per-layer:{label}", per,
                   f"{label}: between two position foldings the domain size is divided by the folding factor", loc=f.loc())
         ck.ob("A", f"fold_positions:{label}", ok, f"{label} folds the query positions with folding::fold_positions", loc=f.loc())
+
+
+def layer_count_rule(ck, prog):
+    """num_fri_layers folds while — and only while — the domain is strictly larger than the maximal remainder domain
+    ((remainder_max_degree + 1) * blowup). Folding once more (`>=`) leaves a remainder with fewer coefficients than the schedule
+    promises (none at all for minimal remainders: the prover cannot build the proof); stopping early (`>` against a smaller bound) makes
+    the remainder exceed its bound."""
+    from ..cfg import trace_cond, FLIP
+    f = prog.fn("winter_fri::options::FriOptions::num_fri_layers")
+    ck.saw(f)
+    g = flow(f)
+    ok, found = False, "no loop decision comparing the running domain size with the maximal remainder domain"
+    for b, blk in enumerate(f.blocks):
+        t = blk["t"]
+        if t["k"] != "switch" or t.get("dty") != "bool":
+            continue
+        c = trace_cond(f, t["d"])
+        if c.kind != "cmp":
+            continue
+        for op, l, r in ((c.op, c.lhs, c.rhs), (FLIP[c.op], c.rhs, c.lhs)):
+            lw, rw = g.walk(ops=[l], at=c.node), g.walk(ops=[r], at=c.node)
+            l_dom = any(f.local_name(p) == "domain_size" for p in g.params_in(lw))
+            r_rem = {"remainder_max_degree", "blowup_factor"} <= {fl for a, fl in g.fields_in(rw)} and not any(f.local_name(p) == "domain_size" for p in g.params_in(rw))
+            if not (l_dom and r_rem):
+                continue
+            # the edge on which `domain op bound` holds must be the one that folds again (reaches the division), the other one leaves the loop
+            listed = [v for v, _ in t["targets"]]
+            true_t = [tb for v, tb in t["targets"] if v != "0"] or ([t["otherwise"]] if listed == ["0"] else [])
+            false_t = [tb for v, tb in t["targets"] if v == "0"] or ([t["otherwise"]] if "0" not in listed else [])
+            divs = [(bb, S) for bb, ii, ss in f.assigns() if ss["rv"]["k"] == "bin" and ss["rv"]["op"] == "Div"]
+            from ..cfg import reach
+            folds_on_true = bool(true_t) and any(d in reach(f, [(true_t[0], S)], avoid=frozenset([(b, T)])) for d in divs)
+            folds_on_false = bool(false_t) and any(d in reach(f, [(false_t[0], S)], avoid=frozenset([(b, T)])) for d in divs)
+            cont = op if folds_on_true and not folds_on_false else ({"<": ">=", "<=": ">", ">": "<=", ">=": "<"}.get(op) if folds_on_false and not folds_on_true else None)
+            found = f"folds again iff domain_size {cont} (remainder_max_degree + 1) * blowup_factor"
+            ok = cont == ">"
+    ck.ob("A", "num_fri_layers:fold-while-strictly-larger", ok,
+          "FriOptions::num_fri_layers folds again iff the domain is strictly larger than the maximal remainder domain "
+          f"({found})", loc=f.loc())
 
 
 def _is_div_update(f, b, i, s):
